@@ -174,11 +174,30 @@ func recordC17(env *Env) {
 		env.emit(f)
 	}
 	for _, b := range bases {
-		for _, codec := range []string{"gz", "bz2", "xz", "zst"} {
+		codecs := []string{"gz", "bz2", "xz", "zst"}
+		if b.tag == "small" {
+			codecs = append(codecs, "gzn")
+		}
+		for _, codec := range codecs {
 			ext := map[string]string{"fasta": "fa", "fastq": "fq"}[b.format]
 			cdata, err := compressWithRepo(dir, b.name+"."+ext+"."+codec, b.text)
 			if err != nil {
 				panic(fmt.Sprint("compress ", codec, ": ", err))
+			}
+			hdr := 0
+			if codec == "gzn" {
+				// a gzip member as the gzip command writes it: with the optional header fields (extra field, original
+				// file name, comment) in front of the deflate data
+				codec = "gz"
+				var zb bytes.Buffer
+				zw := gzip.NewWriter(&zb)
+				zw.Name = b.name + "_of_run_42." + ext
+				zw.Comment = "made for C17"
+				zw.Extra = []byte{'A', 'B', 4, 0, 1, 2, 3, 4}
+				zw.Write([]byte(b.text))
+				zw.Close()
+				cdata = zb.Bytes()
+				hdr = 10 + 2 + len(zw.Extra) + len(zw.Name) + 1 + len(zw.Comment) + 1
 			}
 			proto := faultFile{Codec: codec, Fmt: b.format, Clen: len(cdata), D: len(b.text), Nrec: b.nrec, SizeTag: b.tag}
 			// intact file
@@ -204,6 +223,9 @@ func recordC17(env *Env) {
 				for i := 1; i <= 12; i++ { // header region and trailer region
 					add(i)
 					add(len(cdata) - i)
+				}
+				for i := 13; i <= hdr+3; i++ { // every cut inside the optional header fields
+					add(i)
 				}
 				k := per
 				if b.tag == "big" {
